@@ -108,6 +108,8 @@ def build_cases(tier, rng):
         for k in ("MEASUREMENT", "CHARACTERISTIC"):
             mine = [n for kk, n in elems if kk == k]
             edits.append({"op": "set_bitmask", "kind": k, "name": rng.choice(mine), "value": 255})
+            for op in ("set_ecu_address", "add_annotation", "set_format"):
+                edits.append({"op": op, "kind": k, "name": rng.choice(mine)})
         cases.append({"id": len(cases), "text": text, "cumulative": False, "edits": edits})
         meta.append({"style": style, "cumulative": False})
         # a growing history on the same model: several new objects of the same kinds, removals in between
